@@ -135,7 +135,7 @@ def device_cases(tier):
         if i < 3:
             for chset in ("eom-RB", "eom-R", "eom-B", "ids-rev", "dmm-rev"):
                 out.append(("vdevice", c, chset))
-    for mod in ("none", "layouts", "noise", "filling", "eom-custom", "no-dmm"):
+    for mod in ("none", "layouts", "layouts-negzero", "noise", "filling", "eom-custom", "no-dmm"):
         out.append(("device", mod))
     return out
 
@@ -214,6 +214,11 @@ def check_device(mod):
     base = pulser.AnalogDevice
     if mod == "layouts":
         dev = dataclasses.replace(base, pre_calibrated_layouts=(TriangularLatticeLayout(20, 6.0), TriangularLatticeLayout(30, 7.5)), accepts_new_layouts=False)
+    elif mod == "layouts-negzero":
+        from pulser.register.register_layout import RegisterLayout
+
+        lay = RegisterLayout([(-0.0, 0.0), (6.0, -1e-9), (-3e-16, 6.0), (6.0, 6.0), (12.0, 0.0), (12.0, 6.0)], slug="nz")
+        dev = dataclasses.replace(base, pre_calibrated_layouts=(lay,))
     elif mod == "noise":
         from pulser.noise_model import NoiseModel
 
@@ -246,6 +251,11 @@ def reg_cases(tier):
             for ids in (("q0", "q1", "q2"), ("b", "a", "c"), (2, 0, 1)):
                 for layout in (False, True):
                     out.append(("register", dim, order, ids, layout))
+    # coordinates that hold a negative zero after rounding (explicit -0.0, tiny negative values as left by rotations)
+    for dim in (2, 3):
+        for order in ((0, 1, 2), (2, 0, 1)):
+            for layout in (False, True):
+                out.append(("register", dim, order, ("q0", "q1", "q2"), layout, "negzero"))
     pts2 = [(5.0, 0.0), (0.0, 0.0), (0.0, 5.0), (5.0, 5.0)]
     ws = [0.3, 0.1, 0.4, 0.2]
     for perm in itertools.permutations(range(4)):
@@ -253,13 +263,15 @@ def reg_cases(tier):
     return out
 
 
-def check_register(dim, order, ids, layout):
+def check_register(dim, order, ids, layout, ptskind="plain"):
     from pulser import Register, Register3D
     from pulser.json.abstract_repr.deserializer import deserialize_abstract_layout, deserialize_abstract_register
     from pulser.register.register_layout import RegisterLayout
 
     out = []
     pts = [(0.0, 0.0), (8.0, 1.5), (3.0, -9.25)] if dim == 2 else [(0.0, 0.0, 0.0), (8.0, 1.5, 2.0), (3.0, -9.25, -4.0)]
+    if ptskind == "negzero":
+        pts = [(-0.0, 0.0), (8.0, -1e-9), (-3e-16, -9.25)] if dim == 2 else [(-0.0, 0.0, -1e-9), (8.0, -1e-9, 2.0), (3.0, -9.25, -0.0)]
     coords = {ids[i]: pts[i] for i in order}
     if layout:
         L = RegisterLayout(pts[::-1] + ([(20.0, 20.0)] if dim == 2 else [(20.0, 20.0, 20.0)]), slug="lay")
